@@ -61,7 +61,7 @@ static int mk_child(void)
 /* ---- C11: children and wait interests ------------------------------------------------ */
 static void gen_wait(int tier)
 {
-	int nloops = 1 + (P(45) ? R(3) : 0), ndrv = P(50), t, i, nw = 0, waits[64], nchild = 0, childs[64], big = tier > 0;
+	int nloops = 1 + (P(55) ? R(3) : 0), ndrv = P(65), t, i, nw = 0, waits[64], nchild = 0, childs[64], big = tier > 0;
 	static const int sigs[] = { SIGTERM, SIGTERM, SIGKILL, SIGSTOP, SIGCONT, SIGUSR1 };
 
 	gx_common_cfg(nloops + ndrv);
@@ -135,10 +135,43 @@ static void gen_wait(int tier)
 	if (ndrv) {
 		int len = 2 + R(10);
 		while (len-- > 0) {
-			if (P(50))
+			int r = R(100);
+			if (r < 35)
 				gx_add_op(CTX_DRV, nloops, 0, OP_SLEEP, 0, gx_delta(), 0, 0);
-			else if (nchild)
+			else if (r < 55 && nchild)
 				gx_add_op(CTX_DRV, nloops, 0, OP_SPAWN, childs[R(nchild)], 0, 0, 0);
+			else if (nchild) {
+				/* several state changes of one child in quick succession, each of which may be reaped by
+				 * another thread before the interest's owner gets to run */
+				int c = childs[R(nchild)], k = 1 + R(4);
+				while (k-- > 0) {
+					gx_add_op(CTX_DRV, nloops, 0, OP_TKILL, c, sigs[R(6)], 0, 0);
+					if (P(60))
+						gx_add_op(CTX_DRV, nloops, 0, OP_YIELD, 0, 0, 0, 0);
+				}
+			}
+		}
+	}
+	/* several statuses of one child queued for its interest before the owner runs (another thread
+	 * reaps), while the handler unregisters a sibling interest on the first of them */
+	if (nloops >= 2 && ndrv && P(40)) {
+		int owner = R(nloops), ca = mk_child(), cb = mk_child(), a = gx_add_obj(K_WAIT, owner), b = gx_add_obj(K_WAIT, owner), k;
+		if (a >= 0 && b >= 0) {
+			G->obj[ca].p[0] = -1; G->obj[ca].p[2] = 1; G->obj[ca].p[5] = 0;
+			G->obj[cb].p[0] = -1; G->obj[cb].p[5] = 0;
+			G->obj[a].p[0] = 0; G->obj[a].p[1] = ca;
+			G->obj[b].p[0] = 0; G->obj[b].p[1] = cb;
+			gx_add_op(CTX_SETUP, owner, 0, OP_REG, a, 0, 0, 0);
+			gx_add_op(CTX_SETUP, owner, 0, OP_REG, b, 0, 0, 0);
+			gx_add_op(CTX_CB, a, 1 + R(2), OP_UNREG, P(80) ? b : a, 0, 0, 0);
+			gx_add_op(CTX_DRV, nloops, 0, OP_SLEEP, 0, gx_delta(), 0, 0);
+			for (k = 0; k < 3; k++) {
+				static const int seq[3] = { SIGSTOP, SIGCONT, SIGKILL };
+				int y = R(4);
+				gx_add_op(CTX_DRV, nloops, 0, OP_TKILL, ca, seq[k], 0, 0);
+				while (y-- > 0)
+					gx_add_op(CTX_DRV, nloops, 0, OP_YIELD, 0, 0, 0, 0);
+			}
 		}
 	}
 	gx_absent(8);
